@@ -139,8 +139,8 @@ impl<L: Language> Matcher<L> for Has<L> {
             if nd.matches(matcher) {
               None
             } else {
-              nd.children()
-                .find_map(|n| self.inner.match_node_with_env(n, env))
+              // keep descending below the field child until the stop rule matches
+              self.match_descendants_until(nd, matcher, env)
             }
           })
         }
@@ -154,19 +154,30 @@ impl<L: Language> Matcher<L> for Has<L> {
         .dfs()
         .skip(1)
         .find_map(|n| self.inner.match_node_with_env(n, env)),
-      StopBy::Rule(matcher) => {
-        // TODO: use Pre traversal to reduce stack allocation
-        node.children().find_map(|n| {
-          self.inner.match_node_with_env(n.clone(), env).or_else(|| {
-            if n.matches(matcher) {
-              None
-            } else {
-              self.match_node_with_env(n, env)
-            }
-          })
-        })
-      }
+      StopBy::Rule(matcher) => self.match_descendants_until(node, matcher, env),
     }
+  }
+}
+
+impl<L: Language> Has<L> {
+  /// search the proper descendants of `node` in pre-order,
+  /// without descending below a node that matches the stop rule
+  fn match_descendants_until<'tree, D: Doc<Lang = L>>(
+    &self,
+    node: Node<'tree, D>,
+    matcher: &Rule<L>,
+    env: &mut Cow<MetaVarEnv<'tree, D>>,
+  ) -> Option<Node<'tree, D>> {
+    // TODO: use Pre traversal to reduce stack allocation
+    node.children().find_map(|n| {
+      self.inner.match_node_with_env(n.clone(), env).or_else(|| {
+        if n.matches(matcher) {
+          None
+        } else {
+          self.match_descendants_until(n, matcher, env)
+        }
+      })
+    })
   }
 }
 
